@@ -614,7 +614,12 @@ func c19Worker(tier string, shard, n int) hWorkerOut {
 	os.WriteFile(env.crlFile2, world.SimpleCRL(p.CA, 2, 702).DER(), 0644)
 	env.missing = filepath.Join(env.files, "does-not-exist")
 	good := world.SimpleCRL(p.CA, 1, 701).DER()
-	os.WriteFile(env.crlFile, good, 0644)
+	// the first configured crl_file is a symbolic link (how deployments publish the current list): the validator keeps
+	// working with the path as it was configured
+	os.WriteFile(filepath.Join(env.files, "list-v1-real.crl"), good, 0644)
+	if err := os.Symlink(filepath.Join(env.files, "list-v1-real.crl"), env.crlFile); err != nil {
+		panic(err)
+	}
 	seen := map[string]bool{}
 	idx := 0
 	c19Enumerate(tier, func(c c19Conf) {
